@@ -99,6 +99,16 @@ CHECKS = {
              "unmoved; and the output equal to the memoised output of any earlier call with the same (operation, key, inputs) -- which makes every aliased call agree bit for bit with its non-aliased twin.",
         note="Equality is decided on 62-bit hashes (collision probability negligible). Quick: 128-bit set on spqlios-fma and 80-bit set on nayuki-portable (optim); thorough: five back-ends, both sets, two debug builds.",
         design="§6 C15"),
+    "C19": dict(
+        category="model_checking",
+        technique="TLA+ spec Params (transcribed lambda dispatch vs documented thresholds, documented sets as records, structural constraints, noise formulas in a rounded-up floating-point emulation) "
+                  "model-checked by TLC for every lambda; every field returned by the real function for every lambda validated by TLC (Table_C19)",
+        text="TLC checks for every lambda in [-5,300] and the int32 extremes that the transcribed selection equals the documented mapping (1..80 -> 80-bit set, 81..128 -> 128-bit set, otherwise abort), never returns a weaker set, "
+             "is monotone, and that both documented sets satisfy the structural constraints and keep the analytic gate-output variance below the quoted bound with >= 12 sigma of margin at every gate (incl. XOR/XNOR and the "
+             "modulus-switch rounding). The real function is called for every lambda in a forked child; the outcome (return / abort signal) and every field of the returned set -- dimensions, decomposition parameters, derived fields "
+             "(Bg, halfBg, maskMod, kpl, h[], extracted n), and the noise levels as exact IEEE mantissa/exponent plus their decimal rendering -- are compared by TLC with the documented records, and the noise formulas are re-evaluated on the returned values.",
+        note="The 80-bit set is documented only in the source comments. The noise formula is the standard average-case TFHE variance; the property's 'bound' constants are taken from the property text.",
+        design="§6 C19"),
 }
 
 NOT_YET = {}
